@@ -95,7 +95,7 @@ void* sim_alloc(size_t size, size_t align) {
     u = (u + align - 1) & ~(uintptr_t)(align - 1);
     Header *h = ((Header*)u) - 1;
     h->magic = MAGIC_LIVE; h->size = size; h->base = base; h->next = 0;
-    fill((void*)u, size);
+    fill((void*)u, size < (16u << 20) ? size : (16u << 20));     // huge blocks: only the head is dirtied
     ++stats.live_blocks; stats.live_bytes += size;
     return (void*)u;
 }
